@@ -175,6 +175,12 @@ package dns
 // (the decoded length of the token under the unpadded base32hex encoding, five bits per character: trusted to be
 // what base32HexNoPadEncoding.DecodedLen returns)
 //@   stored at "rr.HashLength = " hashlen: value == callres("DecodedLen") % 256 && callarg("DecodedLen", 1) == len(l.token) [C05]
+// RFC 3597 5: "\# <length> <hex>" - the record is accepted exactly when the hexadecimal data holds two digits for
+// every octet the length announces (any 16-bit length, so also 32768..65535), and refused for a length that does not
+// match
+//@ func (*RFC3597).parse [C05 C07]
+//@   assert at "bad RFC3597 Rdata@4" lenonly: callres("ParseUint", 0) * 2 != len(s) [C05]
+//@   stored at "rr.Rdata = s" whole: len(value) == 2 * callres("ParseUint", 0) [C05]
 //@ func (*NSEC3PARAM).parse [C05 C07]
 //@   stored at "rr.SaltLength = " saltlen: len(l.token) < 512 ==> value == len(l.token) / 2 [C05]
 //@ func (*HIP).parse [C05 C07]
